@@ -48,7 +48,7 @@ DECIDING = [
     'numqi.entangle._misc.hf_interpolate_dm', 'numqi.entangle.symext.get_ABk_symmetric_extension_boundary',
     'numqi.entangle.symext.is_ABk_symmetric_ext', 'PureBosonicExt.forward', 'AutodiffCHAREE.forward',
     'CHABoundaryBagging.solve', 'threshold/dm', 'threshold/ppt', 'threshold/batched', 'interpolate', 'nesting/offline',
-    'inner-in-outer/labelled-state-at-symext', 'cha/feasible-point', 'reference-bosonic-sdp',
+    'inner-in-outer/labelled-state-at-symext', 'cha/feasible-point', 'reference-bosonic-sdp', 'api-surface',
 ]
 
 TOL_ORDER = 1e-4      # slack for orderings that involve an SDP / LP answer
@@ -88,7 +88,8 @@ def shards(tier, seed):
                               {'dims': [2, 3], 'ks': [3, 4], 'nrand': 0}]})
         ret.append({'name': 'cha', 'ncha': 10, 'nmodel': 2, 'kmax22': 3, 'cpu_budget_s': B})
         ret += nest[7:]
-        ret.append({'name': 'pureb-a', 'cfg': [[3, 3, 2], [2, 4, 2], [2, 2, 4], [2, 2, 2], [2, 3, 2]], 'nstate': 2, 'cpu_budget_s': B})
+        ret.append({'name': 'pureb-a', 'cfg': [[3, 3, 2], [2, 4, 2], [2, 2, 4], [2, 2, 2], [2, 3, 2]], 'nstate': 2, 'cpu_budget_s': B,
+                    'api': {'symext': [[2, 2, 2], [2, 2, 1]], 'dims': [[2, 2], [2, 3], [3, 2]], 'models': [[2, 2, 2], [2, 3, 2]]}})
         ret.append({'name': 'thresholds', 'n': 60, 'certk': certk_q, 'cpu_budget_s': B})
     else:
         # measured CPU (seed 0): pureb-33-k3 / pureb-24-k3 / cha-* 450-900 s (single feasibility solves of 100-1000 s on boundary states),
@@ -110,6 +111,11 @@ def shards(tier, seed):
         ret.append({'name': 'named-23', 'named': [{'dims': [2, 3], 'ks': [2, 3, 4], 'nrand': 4, 'sym_kmax': 3}], 'cpu_budget_s': B})
         ret.append({'name': 'named-24-22', 'named': [{'dims': [2, 4], 'ks': [2, 3], 'nrand': 4, 'sym_kmax': 2},
                                                      {'dims': [2, 2], 'ks': [2, 3, 4, 5], 'nrand': 4}], 'cpu_budget_s': B})
+        ret.append({'name': 'api-22', 'api': {'symext': [[2, 2, 2], [2, 2, 1], [2, 2, 3], [2, 2, 4]], 'dims': [[2, 2], [3, 2]], 'models': [[2, 2, 2], [2, 2, 3]]},
+                    'cpu_budget_s': B})
+        ret.append({'name': 'api-23', 'api': {'symext': [[2, 3, 2], [2, 3, 1], [2, 3, 3]], 'dims': [[2, 3], [2, 4]], 'models': [[2, 3, 2], [2, 4, 2]]},
+                    'cpu_budget_s': B})
+        ret.append({'name': 'api-33', 'api': {'symext': [[3, 3, 2], [3, 3, 1]], 'dims': [[3, 3]], 'models': [[3, 3, 2]], 'full': False}, 'cpu_budget_s': B})
         ret += [{'name': f'thresholds-{i}', 'n': 800} for i in range(3)]
     return ret
 
@@ -1430,6 +1436,282 @@ def run_named(ctx, numqi, mon, shard):
                                 'betas': {k: (None if v is None else round(float(v), 7)) for k, v in betas.items()}})
 
 
+# parameter order of the shipped API as written in each docstring ("Parameters:" section): this is the specification the
+# positional calls below follow (the post-conditions in install() read positional arguments in the same order)
+API_ORDER = {
+    'get_density_matrix_boundary': ('dm', 'dm_norm'),
+    'get_ppt_boundary': ('dm', 'dim', 'dm_norm', 'within_dm'),
+    'hf_interpolate_dm': ('rho', 'alpha', 'beta', 'dm_norm'),
+    'get_ABk_symmetric_extension_boundary': ('rho', 'dim', 'kext', 'use_ppt', 'use_boson', 'use_tqdm', 'return_info'),
+    'is_ABk_symmetric_ext': ('rho', 'dim', 'kext', 'use_ppt', 'use_boson', 'use_tqdm', 'return_info'),
+    'CHABoundaryBagging': ('dim', 'num_state'),
+    'CHABoundaryBagging.solve': ('dm', 'maxiter', 'norm2_init', 'decay_rate', 'threshold', 'num_init_retry', 'use_tqdm', 'return_info', 'seed'),
+    'PureBosonicExt': ('dimA', 'dimB', 'kext', 'distance_kind'),
+    'AutodiffCHAREE': ('dim', 'num_state', 'distance_kind'),
+}
+
+
+def run_api(ctx, numqi, mon, shard):
+    """API surface (generic lesson 2): every monitored public function is also called positionally in docstring order, with
+    the defaults passed explicitly, with flags as np.bool_ / 0 / 1, dim as tuple / list / ndarray, kext as a numpy integer, with
+    return_info, and batched x every flag combination; each variant must give the answer of the plain keyword call. The
+    post-conditions and the event log see all of these calls too (positional arguments are read in docstring order)."""
+    import torch
+    E = numqi.entangle
+    rng = ctx.rng
+    drv = Driver(ctx, numqi, mon)
+    plan = shard['api']
+
+    def same(a, b, tol=TOL_ORDER):
+        if a is None or b is None:
+            return None
+        a, b = np.asarray(a, dtype=np.float64), np.asarray(b, dtype=np.float64)
+        return bool(a.shape == b.shape and np.all(np.isfinite(a)) and np.all(np.isfinite(b)) and np.abs(a - b).max() <= tol)
+
+    def cmp(ok, key, what, wit):
+        if ok is None:
+            ctx.inconclusive('api/variant-solver-failure')
+            return
+        ctx.check(ok, key, what, wit, point='api-surface')
+
+    for (dA, dB, k) in plan['symext']:
+        dims = (dA, dB)
+        d = dA * dB
+        # a noisy entangled pure state: beta_kext+ppt < beta_kext < beta_dm, so every flag matters
+        rho = R.herm(0.8 * rand_pure_entangled(rng, dA, dB) + 0.2 * rand_dm(rng, d))
+        # (b) the same ray given by an indefinite Hermitian unit-trace matrix (three times as long)
+        rho_far = R.herm(np.eye(d) / d + 3.0 * (rho - np.eye(d) / d))
+        ctx.set_case({'op': 'api-symext', 'dims': dims, 'k': k})
+        ctx.workload('corner')
+        with ctx.guard('api-symext'):
+            bdm = float(E.get_density_matrix_boundary(rho)[1])
+            base = {}
+            full_variants = plan.get('full', True)
+            for ppt in (False, True):
+                for boson in (False, True):
+                    if cpu_left(ctx) < 0:
+                        ctx.inconclusive('budget-exhausted')
+                        break
+                    f = lambda *a, **kw: drv.sdp(lambda: E.get_ABk_symmetric_extension_boundary(*a, **kw))
+                    kw0 = f(rho, dims, k, use_ppt=ppt, use_boson=boson)
+                    base[(ppt, boson)] = kw0
+                    wit = {'dims': dims, 'k': k, 'use_ppt': ppt, 'use_boson': boson, 'keyword_call': None if kw0 is None else float(kw0)}
+                    v = f(rho, dims, k, ppt, boson)
+                    cmp(same(kw0, v), 'symext_boundary/positional-call-differs-from-keyword-call',
+                        'get_ABk_symmetric_extension_boundary(rho, dim, kext, use_ppt, use_boson) called positionally in docstring order differs '
+                        'from the keyword call', dict(wit, positional=None if v is None else float(v)))
+                    if not full_variants:
+                        continue
+                    v = f(rho, dims, k, ppt, boson, False, False)
+                    cmp(same(kw0, v), 'symext_boundary/positional-call-differs-from-keyword-call',
+                        'get_ABk_symmetric_extension_boundary with all seven arguments positional (docstring order) differs from the keyword call',
+                        dict(wit, positional=None if v is None else float(v)))
+                    v = f(rho, dims, k, use_ppt=ppt, use_boson=boson, use_tqdm=False, return_info=False)
+                    cmp(same(kw0, v), 'symext_boundary/explicit-default-differs', 'passing the defaults explicitly changes the boundary',
+                        dict(wit, explicit=None if v is None else float(v)))
+                    for fl, name in ((np.bool_, 'np.bool_'), (int, '0/1')):
+                        v = f(rho, dims, k, use_ppt=fl(ppt), use_boson=fl(boson))
+                        cmp(same(kw0, v), 'symext_boundary/flag-type-changes-answer', f'flags given as {name} change the boundary',
+                            dict(wit, flag_type=name, got=None if v is None else float(v)))
+                    for dv, name in ((list(dims), 'list'), (np.array(dims), 'ndarray')):
+                        v = f(rho, dv, np.int64(k), use_ppt=ppt, use_boson=boson)
+                        cmp(same(kw0, v), 'symext_boundary/dim-or-kext-type-changes-answer', f'dim as {name} and kext as np.int64 change the boundary',
+                            dict(wit, dim_type=name, got=None if v is None else float(v)))
+                    v = f(rho, dims, k, use_ppt=ppt, use_boson=boson, return_info=True)
+                    ok = None if (v is None or kw0 is None) else (isinstance(v, tuple) and len(v) == 3 and same(kw0, v[0]))
+                    cmp(ok, 'symext_boundary/return_info-changes-beta', 'return_info=True must return (beta, vecA, vecN) with the same beta', wit)
+                    v = f(rho_far, dims, k, use_ppt=ppt, use_boson=boson)
+                    cmp(same(kw0, v), 'symext_boundary/depends-on-length-of-rho',
+                        'the boundary along a ray must not depend on whether the ray is given by a density matrix or by an indefinite Hermitian '
+                        'unit-trace matrix further out on the same ray', dict(wit, far=None if v is None else float(v)))
+                    # batched x this flag combination, positional
+                    mats = np.stack([rho, rand_pure_entangled(rng, dA, dB)])
+                    vb = f(mats, dims, k, ppt, boson)
+                    vs = f(mats[1], dims, k, use_ppt=ppt, use_boson=boson)
+                    ok = None if (vb is None or vs is None or kw0 is None) else (np.shape(vb) == (2,) and same(vb[0], kw0, 2 * TOL_ORDER)
+                                                                               and same(vb[1], vs, 2 * TOL_ORDER))
+                    cmp(ok, 'symext_boundary/batched!=single', 'batched positional call differs from the per-item keyword calls (2e-4)',
+                        dict(wit, batched=None if vb is None else [float(t) for t in np.reshape(vb, -1)]))
+            # ---- is_ABk_symmetric_ext on states well inside / between / well outside the two boundaries
+            b_ppt, b_plain = base.get((True, False)), base.get((False, False))
+            if b_ppt is not None and b_plain is not None:
+                b_ppt, b_plain = float(b_ppt), float(b_plain)
+                probes = {'inside-both': 0.7 * b_ppt}
+                if b_plain - b_ppt > 8e-2:
+                    probes['between(kext-only)'] = 0.5 * (b_ppt + b_plain)
+                if bdm - b_plain > 8e-2:
+                    probes['outside-both'] = 0.5 * (b_plain + bdm)
+                states = {n: R.herm(R.ray_point(rho, b)) for n, b in probes.items()}
+                g = lambda *a, **kw: drv.sdp(lambda: E.is_ABk_symmetric_ext(*a, **kw))
+                for ppt in (False, True):
+                    for boson in (False, True):
+                        if cpu_left(ctx) < 0:
+                            ctx.inconclusive('budget-exhausted')
+                            break
+                        expect = {'inside-both': True, 'between(kext-only)': (not ppt), 'outside-both': False}
+                        kwres = {}
+                        for n, st in states.items():
+                            r0 = g(st, dims, k, use_ppt=ppt, use_boson=boson)
+                            kwres[n] = r0
+                            wit = {'dims': dims, 'k': k, 'use_ppt': ppt, 'use_boson': boson, 'state': n, 'keyword_call': None if r0 is None else bool(r0)}
+                            # in dB=2 and for these directions bosonic == symmetric (measured), so the expectation does not depend on use_boson
+                            cmp(None if r0 is None else bool(r0) == expect[n], 'is_symext/disagrees-with-own-boundaries',
+                                'is_ABk_symmetric_ext disagrees with the k-extension boundaries reported for the same options (margin >= 4e-2)', wit)
+                            for label, call in (('positional', lambda: g(st, dims, k, ppt, boson)),
+                                                ('all-positional', lambda: g(st, dims, k, ppt, boson, False, False)),
+                                                ('explicit-defaults', lambda: g(st, dims, k, use_ppt=ppt, use_boson=boson, use_tqdm=False, return_info=False)),
+                                                ('np.bool_', lambda: g(st, dims, k, use_ppt=np.bool_(ppt), use_boson=np.bool_(boson))),
+                                                ('0/1', lambda: g(st, dims, k, use_ppt=int(ppt), use_boson=int(boson))),
+                                                ('list-dim,np.int64-kext', lambda: g(st, list(dims), np.int64(k), use_ppt=ppt, use_boson=boson)),
+                                                ('ndarray-dim', lambda: g(st, np.array(dims), k, use_ppt=ppt, use_boson=boson))):
+                                if not full_variants and label != 'positional':
+                                    continue
+                                v = call()
+                                key = {'positional': 'is_symext/positional-call-differs-from-keyword-call',
+                                       'all-positional': 'is_symext/positional-call-differs-from-keyword-call',
+                                       'explicit-defaults': 'is_symext/explicit-default-differs'}.get(label, 'is_symext/argument-type-changes-answer')
+                                cmp(None if (v is None or r0 is None) else (np.ndim(v) == 0 and bool(v) == bool(r0)), key,
+                                    f'is_ABk_symmetric_ext called as "{label}" differs from the keyword call', dict(wit, variant=label))
+                            if full_variants:
+                                v = g(st, dims, k, use_ppt=ppt, use_boson=boson, return_info=True)
+                                ok = None if (v is None or r0 is None) else (isinstance(v, tuple) and len(v) == 2 and bool(v[0]) == bool(r0))
+                                cmp(ok, 'is_symext/return_info-changes-answer', 'return_info=True must return (bool, info) with the same bool', wit)
+                        names = list(states)
+                        vb = g(np.stack([states[n] for n in names]), dims, k, ppt, boson)
+                        if vb is not None and all(kwres[n] is not None for n in names):
+                            cmp(np.shape(vb) == (len(names),) and [bool(t) for t in vb] == [bool(kwres[n]) for n in names], 'is_symext/batched!=single',
+                                'batched positional is_ABk_symmetric_ext differs from the per-item keyword calls',
+                                {'dims': dims, 'k': k, 'use_ppt': ppt, 'use_boson': boson, 'states': names, 'batched': [bool(t) for t in np.reshape(vb, -1)]})
+            ctx.case('api-symext', dims, k, R.direction_digest_source(rho), nontrivial=True,
+                     sample={'kind': 'api-surface', 'dims': dims, 'k': k, 'direction_digest': digest(R.direction_digest_source(rho)),
+                             'beta_by_(use_ppt,use_boson)': {f'{int(p)},{int(b)}': (None if v is None else round(float(v), 7)) for (p, b), v in base.items()}})
+
+    # ---- eigenvalue-based functions: exact agreement
+    for (dA, dB) in plan['dims']:
+        dims = (dA, dB)
+        d = dA * dB
+        ctx.set_case({'op': 'api-eig', 'dims': dims})
+        ctx.workload('corner')
+        with ctx.guard('api-eig'):
+            mats = np.stack([rand_dm(rng, d), rand_pure_entangled(rng, dA, dB), rand_herm_direction(rng, d), R.max_entangled(dA, dB)])
+            norms = np.array([R.bloch_norm(m) for m in mats])
+            eq = lambda a, b: bool(np.shape(a[0]) == np.shape(b[0]) and np.allclose(a[0], b[0], rtol=1e-12, atol=0) and np.allclose(a[1], b[1], rtol=1e-12, atol=0))
+            for x, nx, tag in ((mats[0], norms[0], 'single'), (mats, norms, 'batched'), (mats.reshape(2, 2, d, d), norms.reshape(2, 2), 'batched(2,2)')):
+                r0 = E.get_density_matrix_boundary(x, dm_norm=nx)
+                ctx.check(eq(r0, E.get_density_matrix_boundary(x, nx)), 'dm_boundary/positional-call-differs-from-keyword-call',
+                          'get_density_matrix_boundary(dm, dm_norm) positional differs from keyword', {'dims': dims, 'input': tag}, point='api-surface')
+                ctx.check(eq(E.get_density_matrix_boundary(x), E.get_density_matrix_boundary(x, dm_norm=None)) and eq(E.get_density_matrix_boundary(x), r0),
+                          'dm_boundary/explicit-default-differs', 'dm_norm=None / dm_norm=own Gell-Mann norm / default differ', {'dims': dims, 'input': tag},
+                          point='api-surface')
+                if tag == 'single':
+                    for nv, name in ((float(nx), 'float'), (np.float64(nx), 'np.float64'), (np.array(nx), '0-d array'), (np.array([nx]), '(1,) array')):
+                        ctx.check(eq(r0, E.get_density_matrix_boundary(x, dm_norm=nv)), 'dm_boundary/dm_norm-type-changes-answer',
+                                  f'dm_norm given as {name} changes the boundary', {'dims': dims, 'type': name}, point='api-surface')
+                for within in (True, False):
+                    p0 = E.get_ppt_boundary(x, dims, dm_norm=nx, within_dm=within)
+                    wit = {'dims': dims, 'input': tag, 'within_dm': within}
+                    ctx.check(eq(p0, E.get_ppt_boundary(x, dims, nx, within)), 'ppt_boundary/positional-call-differs-from-keyword-call',
+                              'get_ppt_boundary(dm, dim, dm_norm, within_dm) positional differs from keyword', wit, point='api-surface')
+                    ctx.check(eq(p0, E.get_ppt_boundary(x, dims, dm_norm=None, within_dm=within)), 'ppt_boundary/explicit-default-differs',
+                              'dm_norm=None differs from dm_norm=own Gell-Mann norm', wit, point='api-surface')
+                    if within:
+                        ctx.check(eq(p0, E.get_ppt_boundary(x, dims, dm_norm=nx)), 'ppt_boundary/explicit-default-differs',
+                                  'within_dm=True differs from the default', wit, point='api-surface')
+                    for wv, name in ((np.bool_(within), 'np.bool_'), (int(within), '0/1')):
+                        ctx.check(eq(p0, E.get_ppt_boundary(x, dims, dm_norm=nx, within_dm=wv)), 'ppt_boundary/flag-type-changes-answer',
+                                  f'within_dm given as {name} changes the boundary', dict(wit, type=name), point='api-surface')
+                    for dv, name in ((list(dims), 'list'), (np.array(dims), 'ndarray')):
+                        ctx.check(eq(p0, E.get_ppt_boundary(x, dv, dm_norm=nx, within_dm=within)), 'ppt_boundary/dim-type-changes-answer',
+                                  f'dim given as {name} changes the boundary', dict(wit, type=name), point='api-surface')
+            rho = mats[0]
+            bu = float(E.get_density_matrix_boundary(rho)[1])
+            meq = lambda a, b: bool(np.shape(a) == np.shape(b) and np.abs(np.asarray(a) - np.asarray(b)).max() <= 1e-14)
+            for beta in (0.5 * bu, -0.3 * bu, 0.0, bu):
+                r0 = E.hf_interpolate_dm(rho, beta=beta)
+                ctx.check(meq(r0, E.hf_interpolate_dm(rho, None, beta)) and meq(r0, E.hf_interpolate_dm(rho, None, beta, None)),
+                          'interpolate/positional-call-differs-from-keyword-call', 'hf_interpolate_dm(rho, alpha, beta, dm_norm) positional differs from keyword',
+                          {'dims': dims, 'beta': beta}, point='api-surface')
+                ctx.check(meq(r0, E.hf_interpolate_dm(rho, alpha=None, beta=beta, dm_norm=None)) and meq(r0, E.hf_interpolate_dm(rho, beta=np.float64(beta)))
+                          and np.abs(np.asarray(E.hf_interpolate_dm(rho, beta=beta, dm_norm=norms[0])) - r0).max() <= 1e-12,
+                          'interpolate/explicit-default-differs', 'explicit defaults / numpy scalar beta / dm_norm=own norm change the interpolated state',
+                          {'dims': dims, 'beta': beta}, point='api-surface')
+            for alpha in (0.0, 1.0, 0.37):
+                r0 = E.hf_interpolate_dm(rho, alpha=alpha)
+                ctx.check(meq(r0, E.hf_interpolate_dm(rho, alpha)), 'interpolate/positional-call-differs-from-keyword-call',
+                          'hf_interpolate_dm(rho, alpha) positional differs from keyword', {'dims': dims, 'alpha': alpha}, point='api-surface')
+            ctx.case('api-eig', dims, np.round(mats, 7) + 0.0, nontrivial=True)
+
+    # ---- inner models: constructors and CHABoundaryBagging.solve
+    ctx.set_case({'op': 'api-models'})
+    ctx.workload('corner')
+    with ctx.guard('api-models'):
+        for (dA, dB, k) in plan['models']:
+            theta = None
+            dms = []
+            for mk in (lambda: E.PureBosonicExt(dimA=dA, dimB=dB, kext=k, distance_kind='gellmann'), lambda: E.PureBosonicExt(dA, dB, k, 'gellmann'),
+                       lambda: E.PureBosonicExt(dA, dB, np.int64(k), distance_kind='GELLMANN')):
+                model = mk()
+                n = len(numqi.optimize.get_model_flat_parameter(model))
+                theta = rng.normal(size=n) if theta is None else theta
+                if len(theta) != n:
+                    dms.append(None)
+                    continue
+                numqi.optimize.set_model_flat_parameter(model, theta)
+                model.set_dm_target(np.eye(dA * dB) / (dA * dB))
+                with torch.no_grad():
+                    model()
+                dms.append(mon.last_state)
+            ctx.check(all(x is not None and np.abs(x - dms[0]).max() <= 1e-12 for x in dms), 'pureb/positional-constructor-differs-from-keyword',
+                      'PureBosonicExt(dimA, dimB, kext, distance_kind) built positionally / with numpy int gives a different state for the same parameters',
+                      {'dims': (dA, dB), 'k': k}, point='api-surface')
+            dms = []
+            theta = None
+            for mk in (lambda: E.AutodiffCHAREE(dim=(dA, dB), num_state=None, distance_kind='gellmann'), lambda: E.AutodiffCHAREE((dA, dB), None, 'gellmann'),
+                       lambda: E.AutodiffCHAREE([dA, dB], 2 * dA * dB, distance_kind='gellmann')):
+                model = mk()
+                n = len(numqi.optimize.get_model_flat_parameter(model))
+                theta = rng.normal(size=n) if theta is None else theta
+                if len(theta) != n:
+                    dms.append(None)
+                    continue
+                numqi.optimize.set_model_flat_parameter(model, theta)
+                model.set_dm_target(np.eye(dA * dB) / (dA * dB))
+                with torch.no_grad():
+                    model()
+                dms.append(mon.last_state)
+            ctx.check(all(x is not None and np.abs(x - dms[0]).max() <= 1e-12 for x in dms), 'cha-model/positional-constructor-differs-from-keyword',
+                      'AutodiffCHAREE(dim, num_state, distance_kind) built positionally / with the default num_state explicit gives a different state',
+                      {'dims': (dA, dB)}, point='api-surface')
+        rho = rand_dm(rng, 4)
+        seed = int(rng.integers(0, 2**31))
+
+        def cha(call):
+            try:
+                with warnings.catch_warnings():
+                    warnings.simplefilter('ignore')
+                    return call()
+            except drv.SolverError:
+                return None
+            except (RuntimeError, AssertionError) as e:
+                if 'initial state' in str(e) or 'cvxpy solve failed' in str(e):
+                    return None
+                raise
+        r0 = cha(lambda: E.CHABoundaryBagging(dim=(2, 2), num_state=None).solve(rho, maxiter=2, return_info=False, seed=seed))
+        variants = {
+            'positional': lambda: E.CHABoundaryBagging((2, 2), None).solve(rho, 2, 1, 0.97, 1e-7, 10, False, False, seed),
+            'explicit-defaults': lambda: E.CHABoundaryBagging((2, 2), 3 * 16).solve(rho, maxiter=2, norm2_init=1, decay_rate=0.97, threshold=1e-7, num_init_retry=10,
+                                                                                   use_tqdm=False, return_info=False, seed=seed),
+            'return_info': lambda: E.CHABoundaryBagging([2, 2]).solve(rho, maxiter=np.int64(2), return_info=True, seed=np.int64(seed)),
+        }
+        for label, call in variants.items():
+            v = cha(call)
+            if label == 'return_info' and v is not None:
+                v = v[0] if (isinstance(v, tuple) and len(v) == 2) else float('nan')
+            key = {'positional': 'cha/positional-call-differs-from-keyword-call', 'explicit-defaults': 'cha/explicit-default-differs'}.get(label, 'cha/return_info-changes-beta')
+            cmp(same(r0, v), key, f'CHABoundaryBagging.solve called as "{label}" with the same seed differs from the keyword call',
+                {'seed': seed, 'keyword_call': r0, 'variant': label, 'got': v})
+
+
 def run(ctx, shard):
     import numqi
     import time
@@ -1450,12 +1732,14 @@ def run(ctx, shard):
             run_cha(ctx, numqi, mon, shard)
         elif name.startswith('certk'):
             run_certk(ctx, numqi, mon, shard)
-        elif name.startswith('named'):
+        elif name.startswith('named') or name.startswith('api'):
             pass
         else:
             raise ValueError(name)
         if shard.get('named'):
             run_named(ctx, numqi, mon, shard)
+        if shard.get('api'):
+            run_api(ctx, numqi, mon, shard)
     finally:
         with ctx.quiet():
             check_nesting(ctx, mon)
